@@ -272,6 +272,12 @@ class LetExpression(TypedExpression):
             [layer for layer in list(value_state.stack) if layer.get("scope")]
         )
         if not self.local_variables:
+            if getattr(self.value, "scope", None):
+                # The body already carries its own lifted scope (and that layer's
+                # state); re-listing it in a fresh stack would emit it twice.
+                return self.value.model_copy(
+                    update={"before": body_before, "after": body_after}
+                )
             return self.value.model_copy(
                 update={
                     "before": body_before,
